@@ -18,6 +18,7 @@ type MergedIterator[T any] struct {
 	hasNext2    bool
 	compareFn   func(a, b T) int
 	initialized bool
+	stopped     bool
 }
 
 func Merge[T any](iter1, iter2 storage.Iterator[T], compareFn func(a, b T) int) storage.Iterator[T] {
@@ -54,6 +55,10 @@ func (m *MergedIterator[T]) initialize(ctx context.Context) error {
 
 func (m *MergedIterator[T]) Next(ctx context.Context) (T, error) {
 	var zero T
+
+	if m.stopped {
+		return zero, storage.ErrIteratorDone
+	}
 
 	// Initialize on first call
 	if err := m.initialize(ctx); err != nil {
@@ -139,6 +144,7 @@ func (m *MergedIterator[T]) returnFromIter2(ctx context.Context) (T, error) {
 }
 
 func (m *MergedIterator[T]) Stop() {
+	m.stopped = true
 	m.iter1.Stop()
 	m.iter2.Stop()
 }
